@@ -759,6 +759,8 @@ class FDE:
                 return ('super_ayns', o, after)
             t = self.repo.resolve(o.cls, attr, ayns=base[0] == 'super_ayns', after=after)
             if t is None:
+                if attr in self.stubs:
+                    return Bound(o, None, attr, base[0] == 'super_ayns')      # method of an external base class, stubbed by name
                 if attr in ('__init__', '__setstate__', '__init_subclass__'):
                     return ('noop',)
                 raise Unsupported('super().%s not found after %s' % (attr, after))
@@ -898,6 +900,8 @@ class FDE:
             if ok:
                 return v
             base = self._ev(e.value, env, fi)
+            if isinstance(base, tuple) and base and base[0] == 'class' and e.attr in ('__name__', '__qualname__'):
+                return base[1].split('.')[-1] if e.attr == '__name__' else base[1]
             if isinstance(base, tuple) and base and base[0] == 'class':
                 if (base[1], e.attr) in self.class_objs:
                     return self.class_objs[(base[1], e.attr)]
@@ -908,10 +912,17 @@ class FDE:
                     return self.class_objs[(base[1], e.attr)]
                 if e.attr == 'ayns':
                     return ('classayns', base[1])
-                if base[1] in ('str', 'bytes', 'list', 'dict', 'tuple', 'set', 'int') and base[1] not in self.repo.classes and not e.attr.startswith('_') and hasattr(getattr(_builtins_mod, base[1]), e.attr):
+                if base[1] in ('str', 'bytes', 'list', 'dict', 'tuple', 'set', 'int') and base[1] not in self.repo.classes and (not e.attr.startswith('_') or e.attr in ('__setitem__', '__delitem__', '__getitem__', '__contains__', '__len__', '__iter__')) and hasattr(getattr(_builtins_mod, base[1]), e.attr):
                     um_ = getattr(getattr(_builtins_mod, base[1]), e.attr)
 
                     def unbound_builtin(*a, **k):
+                        if a and isinstance(a[0], Obj):
+                            # list.append(node, x) / dict.__setitem__(node, k, v): the built-in storage of a node object is not modelled -
+                            # the operation is recorded (and answered by the stub callback when the rule stubs that name)
+                            self.effects.append(('call', '%s.%s' % (base[1], e.attr), a[0], tuple(a[1:]), tuple(sorted(k.items(), key=lambda kv: kv[0]))))
+                            if e.attr in self.stubs and self.stub is not None:
+                                return self.stub(e.attr, a[0], list(a[1:]), dict(k))
+                            return None
                         if not a or not isinstance(a[0], getattr(_builtins_mod, base[1])) or isinstance(a[0], tuple) and a[0] and isinstance(a[0][0], str) and a[0][0] in ('class', 'ext', 'unbound', 'closure', 'partial') \
                                 or not all(_concrete(x) for x in a) or not all(_concrete(x) for x in k.values()):
                             raise Unsupported('%s.%s applied to abstract values' % (base[1], e.attr))
@@ -1441,6 +1452,8 @@ class FDE:
                     return list(args[0]) if n == 'list' else tuple(args[0])
                 if n == 'len' and isinstance(args[0], (dict, list, tuple, str)):
                     return len(args[0])
+                if n == 'len' and isinstance(args[0], Obj) and isinstance(args[0].f.get('_children'), dict) and args[0].cls in self.repo.classes and ({'dict', 'list'} & set(self.repo.mro(args[0].cls))):
+                    return len(args[0].f['_children'])      # a container node with a concrete child map (two stores in step)
                 raise Unsupported('builtin ' + n)
             import builtins as _b
             if n not in env and isinstance(getattr(_b, n, None), type) and issubclass(getattr(_b, n), BaseException):
@@ -1572,6 +1585,8 @@ class FDE:
             if isinstance(target, tuple) and target and target[0] == 'strmethod':
                 if all(isinstance(a, (str, int, tuple)) or (isinstance(a, list) and all(isinstance(x, str) for x in a)) for a in args):
                     return getattr(target[1], target[2])(*args, **kwargs)
+                if target[2] in ('format', 'join', 'replace', 'ljust', 'rjust', 'center'):
+                    return Opaque('text built from abstract parts')       # some string: its content is not known
                 raise Unsupported('str.%s on abstract arguments' % target[2])
             if isinstance(target, tuple) and target and target[0] == 'listmethod':
                 try:
